@@ -109,6 +109,13 @@ func runCCrash(r *verifsim.Run) {
 		cfg.W, cfg.H = r.Range(4, 6), r.Range(4, 5)
 		cfg.Cont = r.Chance(1, 2)
 		cfg.ThrOn = false
+		if r.Chance(1, 8) {
+			// a camera that reports an over-long firmware string: every file start fails while the header is
+			// written (go-cptv refuses strings > 255 bytes) - failed starts must not leave anything named .cptv
+			cfg.Firmware = strings.Repeat("firmware build with a very long description ", 7)[:256+r.Draw(40)]
+			cfg.Cont = true
+			r.Probe("starts-fail-while-writing-the-header")
+		}
 		cn := genConn(r, "C10", cfg, id)
 		if len(cn.Ev) > 50 {
 			cn.Ev = cn.Ev[:50]
